@@ -1,6 +1,7 @@
 package main
 
 import (
+	"os"
 	"simrt"
 
 	"context"
@@ -28,9 +29,83 @@ func (r *Run) noteQueue() {
 			consumed += n
 		}
 	}
-	if q := produced - consumed; q > r.maxQueue {
+	// when the callback goroutine is blocked in its receive, the queue is
+	// empty whatever was dropped before: the bound restarts from zero there
+	for _, t := range r.sim.Tasks() {
+		if t.Lib && t.State == simrt.Running && strings.HasPrefix(t.Name, "cb_mgr.go") && strings.HasSuffix(t.Label, " select") {
+			r.queueOffset = produced - consumed
+		}
+	}
+	q := produced - consumed - r.queueOffset
+	if q > r.maxQueue {
 		r.maxQueue = q
 	}
+	if n := len(r.queueSeries); n == 0 || r.queueSeries[n-1].bound != q {
+		r.queueSeries = append(r.queueSeries, queuePoint{r.sim.Step(), q})
+	}
+}
+
+// queueNow: the current bound on the callback queue's occupancy.
+func (r *Run) queueNow() int {
+	if n := len(r.queueSeries); n > 0 {
+		return r.queueSeries[n-1].bound
+	}
+	return 0
+}
+
+var dbgQ = os.Getenv("DBGQ") != ""
+
+type queuePoint struct{ step, bound int }
+
+// keptUpSince: from step on the callback queue can never have overflowed
+// (the occupancy bound stayed at or below 8), even if it did before.
+func (r *Run) keptUpSince(step int) bool {
+	cur := 0
+	for _, p := range r.queueSeries {
+		if p.step <= step {
+			cur = p.bound
+			continue
+		}
+		if p.bound > 8 {
+			return false
+		}
+	}
+	return cur <= 8
+}
+
+// cancelStep: the step at which the Config context was cancelled while the
+// clients were still at work (0: it was not).
+func (r *Run) cancelStep() int {
+	for _, op := range r.ops {
+		if op.K == "cancel-config" {
+			return op.Invoke
+		}
+	}
+	return 0
+}
+
+// sure: whatever the monitor did at or before step had its callback event
+// submitted before the Config context ended. Once that context has ended the
+// monitor's (non-blocking) submission may pick the context case and drop the
+// event, so delivery of the last things it did is not owed. Evidence that the
+// monitor went on to a later iteration before the cancellation: a later
+// install, or a blocking report invoked later that it answered.
+func (r *Run) sure(step int) bool {
+	c := r.cancelStep()
+	if c == 0 {
+		return true
+	}
+	for _, in := range r.installs {
+		if in.Step > step && in.Step < c {
+			return true
+		}
+	}
+	for _, op := range r.ops {
+		if op.K == "breport" && op.Invoke > step && op.Return != 0 && op.Return < c && !isCtxErr(op.Err) {
+			return true
+		}
+	}
+	return false
 }
 
 func (r *Run) pred(idx int) *CfgCore {
@@ -126,6 +201,7 @@ func (r *Run) oracleC04() {
 	}
 	// (c) rejected stacks
 	rejected := map[[4]uint64]VerifyRec{}
+	lastRejection := map[[4]uint64]int{}
 	rejections := map[[4]uint64]int{} // the same stack may be re-built (a value reported again) and rejected again
 	for _, v := range r.verifies {
 		if !v.Failed || r.isEnableVerify(v) {
@@ -135,6 +211,7 @@ func (r *Run) oracleC04() {
 			rejected[v.Stamps] = v
 		}
 		rejections[v.Stamps]++
+		lastRejection[v.Stamps] = v.Step
 		f := r.fresh(v.Stamps)
 		if f.err == nil && f.valid {
 			// the type's Verify rejected a stack the harness predicate accepts: the stack itself is wrong
@@ -175,7 +252,7 @@ func (r *Run) oracleC04() {
 			}
 		}
 		n := rejections[v.Stamps]
-		if r.keepUp() && r.sc.GlobalCB != "block" && !r.sc.NoGlobalCB && matches != n {
+		if r.keepUp() && r.sc.GlobalCB != "block" && !r.sc.NoGlobalCB && matches != n && r.sure(lastRejection[v.Stamps]) {
 			r.fail("C04.on-watched-error", "the stack %v was rejected %d time(s), first at step %d; OnWatchedError was called %d times for it (callbacks kept up: occupancy bound %d)", v.Stamps, n, v.Step, matches, r.maxQueue)
 		}
 		if matches > n {
@@ -215,6 +292,9 @@ func (r *Run) oracleC04() {
 				continue
 			}
 			if r.sc.Delay && r.sc.Suppress && (firstOK == 0 || op.Invoke <= firstOK || ctxErrEnable) {
+				continue
+			}
+			if !r.sure(op.Return) {
 				continue
 			}
 			found := false
@@ -312,7 +392,7 @@ func (r *Run) oracleC06() {
 		}
 		if idx <= lastNew {
 			r.fail("C06.order", "OnNewConfig announced serial %d after serial %d", r.installs[idx].Serial, r.installs[lastNew].Serial)
-		} else if keep && !suppressEver && r.sc.GlobalCB != "block" && idx != lastNew+1 && !(lastNew == -1 && idx == 1) {
+		} else if keep && !suppressEver && r.sc.GlobalCB != "block" && idx != lastNew+1 && !(lastNew == -1 && idx == 1) && r.sure(r.installs[idx-1].Step) {
 			r.fail("C06.skip", "OnNewConfig skipped from serial %d to serial %d although callbacks kept up", serialAt(r, lastNew), r.installs[idx].Serial)
 		}
 		if cb.Old != r.pred(idx) {
@@ -324,8 +404,13 @@ func (r *Run) oracleC06() {
 		lastNew = idx
 	}
 	if keep && !suppressEver && r.sc.GlobalCB != "block" && len(r.installs) > 1 {
-		want := len(r.installs) - 1
-		if len(globalNew) != want {
+		want := 0
+		for _, in := range r.installs[1:] {
+			if r.sure(in.Step) {
+				want++
+			}
+		}
+		if len(globalNew) < want || (len(globalNew) != want && r.cancelStep() == 0) {
 			r.fail("C06.skip", "%d versions were installed after the initial one but OnNewConfig was called %d times although callbacks kept up (occupancy bound %d)", want, len(globalNew), r.maxQueue)
 		}
 	}
@@ -392,7 +477,7 @@ func (r *Run) oracleC06() {
 				r.fail("C06.stale", "handle %d received serial %d after serial %d", h.id, ser, last)
 			}
 			ordinary := cb.Old == r.pred(idx)
-			if ci == 0 && !h.zero && keep && cb.Old != h.serialCfg {
+			if ci == 0 && !h.zero && keep && cb.Old != h.serialCfg && r.sure(r.installs[idx].Step) {
 				r.fail("C06.catch-up", "handle %d registered with the serial of version %d: its first call (serial %d) got an oldConfig that is not the version it registered with", h.id, h.serial, ser)
 			}
 			if !ordinary {
@@ -421,7 +506,7 @@ func (r *Run) oracleC06() {
 					}
 				}
 			}
-			if keep && hasLast && ser != last+1 {
+			if keep && hasLast && ser != last+1 && r.sure(r.installs[idx-1].Step) {
 				r.fail("C06.skip", "handle %d received serial %d right after serial %d although callbacks kept up", h.id, ser, last)
 			}
 			if h.unregOK != 0 && cb.Enter >= h.unregOK {
@@ -446,10 +531,14 @@ func (r *Run) oracleC06() {
 			if h.zero {
 				lo = h.kAfter
 			}
-			if final.Serial > lo {
+			final := final
+			for i := len(r.installs) - 1; i > 0 && !r.sure(final.Step); i-- {
+				final = r.installs[i-1]
+			}
+			if final.Serial > lo && (final.Step > 0 || r.cancelStep() == 0) {
 				if !hasLast {
 					r.fail("C06.skip", "handle %d (registered with serial %d, serial %d current when RegisterCallback returned) was never called although serial %d was installed later and callbacks kept up", h.id, h.serial, h.kAfter, final.Serial)
-				} else if last != final.Serial {
+				} else if last < final.Serial || (last != final.Serial && r.cancelStep() == 0) {
 					r.fail("C06.skip", "handle %d last received serial %d but serial %d was installed and callbacks kept up", h.id, last, final.Serial)
 				}
 				if len(calls) > 0 && h.zero {
@@ -708,7 +797,29 @@ func (r *Run) oracleC09() {
 // suppressionClauses: global callbacks are withheld exactly while the delay is
 // in force and the suppress option is set (delayedAt: delayed?, known?).
 func (r *Run) suppressionClauses(delayedAt func(step int) (bool, bool)) {
-	keep := r.keepUp() && r.sc.GlobalCB != "block" && !r.sc.NoGlobalCB
+	if r.maxQueue > 64 {
+		r.probe("callback-queue-may-have-overflowed")
+		if dbgQ {
+			first, last := 0, 0
+			for _, p := range r.queueSeries {
+				if p.bound > 64 {
+					if first == 0 {
+						first = p.step
+					}
+					last = p.step
+				}
+			}
+			msg := fmt.Sprintf("DBGQ over64 steps %d..%d of %d delay=%v suppress=%v global=%s:", first, last, r.sim.Step(), r.sc.Delay, r.sc.Suppress, r.sc.GlobalCB)
+			for _, op := range r.ops {
+				if op.K == "enable" {
+					msg += fmt.Sprintf(" enable[%d,%d err=%v]", op.Invoke, op.Return, op.Err)
+				}
+			}
+			println(msg)
+		}
+	}
+	globalObservable := r.sc.GlobalCB != "block" && !r.sc.NoGlobalCB
+	keep := r.keepUp() && globalObservable
 	called := map[int]bool{}
 	for _, cb := range r.cbs {
 		if cb.Kind == "new" {
@@ -725,12 +836,16 @@ func (r *Run) suppressionClauses(delayedAt func(step int) (bool, bool)) {
 		if !known {
 			continue
 		}
+		if !keep && globalObservable && r.keptUpSince(in.Step-1) {
+			r.probe("install-after-the-callback-queue-recovered")
+		}
 		if d && r.sc.Suppress {
 			r.probe("install-while-suppressed")
 			if called[i] {
 				r.fail("C09.suppression", "OnNewConfig was called for serial %d, installed at step %d while verification was delayed and global callbacks are to be suppressed", in.Serial, in.Step)
 			}
-		} else if keep && !called[i] {
+		} else if (keep || (globalObservable && r.keptUpSince(in.Step-1))) && !called[i] && r.sure(in.Step) {
+
 			r.fail("C09.suppression", "OnNewConfig was not called for serial %d (installed at step %d; delayed=%v suppress-option=%v) although callbacks kept up", in.Serial, in.Step, d, r.sc.Suppress)
 		}
 	}
@@ -745,7 +860,7 @@ func (r *Run) suppressionClauses(delayedAt func(step int) (bool, bool)) {
 		}
 		n := 0
 		for _, cb := range r.cbs {
-			if cb.Kind == "err" && cb.Err != nil && strings.Contains(cb.Err.Error(), op.Str) {
+			if cb.Kind == "err" && cb.Err != nil && mentions(cb.Err.Error(), op.Str) {
 				n++
 			}
 		}
@@ -755,9 +870,24 @@ func (r *Run) suppressionClauses(delayedAt func(step int) (bool, bool)) {
 			if n > 0 {
 				r.fail("C09.suppression", "a source-reported error reached OnWatchedError while verification was delayed and global callbacks are to be suppressed")
 			}
-		} else if keep && n != 1 {
+		} else if (keep || (globalObservable && r.keptUpSince(op.Invoke-1))) && n != 1 && (n > 1 || r.sure(op.Return)) {
 			r.fail("C09.suppression", "source-reported error %q (%s) reached OnWatchedError %d times, want once (callbacks kept up)", op.Str, state, n)
 		}
+	}
+}
+
+// mentions: s occurs in msg and is not merely a prefix of a longer numbered tag.
+func mentions(msg, s string) bool {
+	for i := 0; ; {
+		j := strings.Index(msg[i:], s)
+		if j < 0 {
+			return false
+		}
+		e := i + j + len(s)
+		if e == len(msg) || msg[e] < '0' || msg[e] > '9' {
+			return true
+		}
+		i = e
 	}
 }
 
